@@ -134,6 +134,7 @@ type frame struct {
 	panicking        bool
 	panic            interface{}
 	phitemps         []value // temporaries for parallel phi assignment
+	cur              ssa.Instruction
 }
 
 func (fr *frame) get(key ssa.Value) value {
@@ -542,7 +543,9 @@ func callSSA(i *interpreter, caller *frame, callpos token.Pos, fn *ssa.Function,
 			if i.mode&EnableTracing != 0 {
 				fmt.Fprintln(os.Stderr, "\t(external)")
 			}
-			return ext(fr, args)
+			if r := ext(fr, args); r != (fallThrough{}) {
+				return r
+			}
 		}
 		if fn.Blocks == nil && fn.Pkg != nil {
 			fn.Pkg.Build()
@@ -644,6 +647,7 @@ func runFrame(fr *frame) {
 				}
 			}
 			fr.i.steps++
+			fr.cur = instr
 			if fr.i.steps > fr.i.run.opts.MaxSteps {
 				panic(abort{"budget", fmt.Sprintf("more than %d interpreted instructions on one path", fr.i.run.opts.MaxSteps)})
 			}
